@@ -100,7 +100,10 @@ trait CharExt: Sized {
 
 impl CharExt for char {
     fn has_casing(self) -> bool {
+        // Title case characters are neither lowercase nor uppercase, but have case mappings.
         self.is_lowercase() != self.is_uppercase()
+            || !self.to_lowercase().eq([self])
+            || !self.to_uppercase().eq([self])
     }
 }
 
